@@ -207,6 +207,33 @@ def run(ctx):
                     okr, dr = False, "the fold's index range does not start at 0 (%s): leading elements are skipped" % H.loc(it_)
     ctx.inst("C13.R3", "builtin#Reduce", okr, dr, H.loc(ra["body"]) if ra else None)
 
+    # ---------------- R9 what counts as a function, and how the operators are written
+    ctx.rule("C13.R9", "every test for 'the right operand is a function' in the evaluator accepts built-ins and lambdas alike (is_callable, or is_lambda and is_built_in together; is_callable itself matches both variants): `xs where is_string`-style uses of a built-in work in the operator forms as in map/filter; and the printers write via / where / into with the words the grammar reads", floor=8)
+    n_g = 0
+    for fn_ in (BINOP, EVAL):
+        k_ = 0
+        for n_ in H.walk(core.hir_fn(fn_)["body"]):
+            if H.kind(n_) != "If":
+                continue
+            names_ = sorted({x["name"] for x in H.walk(n_["cond"]) if H.kind(x) == "MethodCall" and x["name"] in ("is_callable", "is_lambda", "is_built_in")})
+            if not names_:
+                continue
+            k_ += 1
+            n_g += 1
+            ok_ = names_ == ["is_callable"] or set(names_) >= {"is_lambda", "is_built_in"}
+            ctx.inst("C13.R9", "%s#callable-test%d" % (H.last(fn_), k_), ok_, "the test uses %s%s" % (names_, "" if ok_ else ": one kind of function is refused here and accepted by the sibling forms"), H.loc(n_))
+    ctx.inst("C13.R9", "callable-tests#found", n_g >= 5, "%d callable tests found in the evaluator (5 counted at the pinned tree)" % n_g, None)
+    ic_ = core.hir_fn("blots_core::values::Value::is_callable")
+    vs_ = sorted({H.last(v) for n_ in H.walk(ic_["body"]) if H.kind(n_) in ("Match", "Let", "If") or True for v in (H.pat_variants(n_["pat"]) if isinstance(n_, dict) and n_.get("pat") is not None and H.kind(n_) in ("Arm", "Let", "LetExpr") else [])}) if ic_ else []
+    if ic_:
+        m_ = [n_ for n_ in H.walk(ic_["body"]) if H.kind(n_) == "Match"]
+        vs_ = sorted({H.last(v) for mm in m_ for a_ in mm["arms"] for v in H.pat_variants(a_["pat"])})
+    ctx.inst("C13.R9", "Value::is_callable", None if not ic_ or not vs_ else set(vs_) >= {"BuiltIn", "Lambda"}, "is_callable matches %s" % vs_, H.loc(ic_["body"]) if ic_ else None)
+    from rules import printers as P_
+    from rules.c04 import _Only
+    from lib.peg import Grammar as Grammar_
+    P_.L1_tokens(_Only(ctx, lambda k: any(("[%s]" % o) in k for o in ("Via", "Where", "Into")) or k == "binary-token-tables"), "C13.R9", core, Grammar_(ctx.grammar))
+
     # ---------------- R4 depth policy
     ctx.rule("C13.R4", "equivalent forms account call depth alike: the operator forms and the built-in forms pass the same depth to the callback", floor=2)
     deps = {}
